@@ -1,6 +1,7 @@
 package checks
 
 import (
+	"strings"
 	"fmt"
 	"sync"
 	"time"
@@ -169,6 +170,16 @@ func c16LeavingOnly(w *worlds.World) func(depth int, prefix []int, item int) boo
 }
 
 // c16FirstBlockOnly allows transactions in the first block only.
+// c16LateMoveOnly: only the move towards the removed candidate's key, and only from the third block on.
+func c16LateMoveOnly(w *worlds.World) func(depth int, prefix []int, item int) bool {
+	return func(depth int, prefix []int, item int) bool {
+		if depth == 0 {
+			return strings.Contains(w.Menu[item].Name, "declares candidate 301") // pushes candidate 4 to rank 101: removed at the boundary
+		}
+		return depth >= 2 && strings.Contains(w.Menu[item].Name, "removed at the boundary")
+	}
+}
+
 func c16FirstBlockOnly(w *worlds.World) func(depth int, prefix []int, item int) bool {
 	return func(depth int, prefix []int, item int) bool { return depth == 0 }
 }
@@ -214,6 +225,8 @@ func init() {
 		{Worlds: []string{"stakepending"}, Label: "stakepending+evidence", Quick: b(1, 1, 3), Thorough: b(2, 2, 3), EnvFilter: c16ByzSchedule, MenuFilter: c16FirstBlockOnly},
 		// 101 candidates; a move (in the genesis) towards the lowest one matures at block 3, after the boundary at block 2
 		{Worlds: []string{"stakemany"}, Quick: b(1, 1, 3), Thorough: b(2, 2, 4), MenuFilter: c16FirstBlockOnly},
+		// a MoveStake delivered AFTER the boundary towards the key of the candidate that the boundary removed
+		{Worlds: []string{"stakemany"}, Label: "stakemany+move-to-removed", Quick: b(2, 1, 3), Thorough: b(2, 1, 4), MenuFilter: c16LateMoveOnly},
 		// the same by transactions only: MoveStake towards the lowest candidate and a DeclareCandidacy that pushes it
 		// out in block 1, boundary inside the fast-forward, maturity of the move at block 3
 		{Worlds: []string{"stakemanytx"}, Label: "stakemanytx+ff", Quick: b(2, 2, 3), Thorough: b(2, 2, 3), EnvFilter: c16FfMove, MenuFilter: c16FirstBlockOnly},
